@@ -57,5 +57,11 @@ CHECKS = {
                      "'/', and every harvested href, sent as emitted, returned the resource it was emitted for - for names with blanks, %, literal escapes, #, ?, ;, +, :, non-ASCII, under "
                      "/, /dav/, /a/b/ and through both front ends.",
                 note="Trusted: urllib.parse.urljoin as RFC 3986 resolver; clients percent-encode reserved octets in member names; report completeness is left to C07/C11/C12/C17."),
+    "C17": dict(level="exploration", design="DESIGN.md section 4 C17",
+                technique="runtime monitoring: generated href lists (20 href classes) against calendar-/addressbook-multiget at points of a write history; per-class exactly-once matching, GET comparison at the same quiescent point, singleton replay for independence",
+                text="Held on the generated lists except for the recorded known finding (names ending in ':.ext' are typed octet-stream by the server): every requested href class was "
+                     "answered once, live members of the right kind carried the ETag and body a simultaneous GET returned, deleted / never-existing / wrong-kind / malformed / "
+                     "out-of-namespace hrefs never carried data, and each href alone got the same answer as inside its list.",
+                note="Trusted: harness multistatus parser; href classes = equality after percent-decoding, removal of scheme/authority and dot-segment normalisation; data compared modulo XML line-end normalisation."),
 }
 NOT_APPLICABLE = {}
